@@ -98,8 +98,10 @@ pub fn configure(rng: &mut Rng, plan: &Plan, target: &Target) -> Configured {
     Configured { writer, blamed, crash, app, principal, ranges }
 }
 
-pub fn dump_once(cfg: &mut Configured, pid: i32) -> Result<(Result<Vec<u8>, String>, World, Vec<String>), String> {
-    let mut dest = std::io::Cursor::new(Vec::new());
+pub fn dump_once(cfg: &mut Configured, pid: i32) -> Result<(Result<Vec<u8>, String>, World, Vec<String>), String> { dump_once_failing(cfg, pid, None) }
+/// `fail_at`: the destination fails at that write/seek call (the request is expected to return an error)
+pub fn dump_once_failing(cfg: &mut Configured, pid: i32, fail_at: Option<usize>) -> Result<(Result<Vec<u8>, String>, World, Vec<String>), String> {
+    let mut dest = crate::c09::RecDest::new(Vec::new(), 0, false); dest.fail_at = fail_at;
     let writer = &mut cfg.writer;
     let (res, world, events) = with_hooks_ranges(pid, cfg.blamed, true, cfg.ranges.clone(), None, || quiet_catch(std::panic::AssertUnwindSafe(|| writer.dump(&mut dest).map_err(|e| format!("{e:?}")))));
     let image = match res { Err(p) => Err(format!("PANIC: {p}")), Ok(Err(e)) => Err(e), Ok(Ok(img)) => Ok(img) };
@@ -132,6 +134,13 @@ pub fn run_reuse(a: &Args) {
         out.count(&format!("dumps.{ndumps}"));
         for k in 0..ndumps {
             if k == 1 { if let Some(i) = exiter { let _ = target.cmd(&format!("x {i}")); out.count("target.thread_exited_between_dumps"); } }
+            // an earlier request of the history may FAIL (destination I/O error after the thread list was written);
+            // what it recorded must not leak into the later ones
+            if k + 1 < ndumps && rng.chance(1, 3) {
+                let fail_at = rng.range(4, 12) as usize;
+                match dump_once_failing(&mut cfg, target.pid, Some(fail_at)) { Ok((Err(_), _, _)) => { out.count("history.failed_request"); } Ok((Ok(_), _, _)) => { out.count("history.failure_not_reached"); } Err(_) => {} }
+                continue;
+            }
             match dump_once(&mut cfg, target.pid) {
                 Ok((image, world, events)) => {
                     let lv = Live { target, world, image, plan, blamed: cfg.blamed, crash: cfg.crash.as_ref().map(|c| CrashContext { inner: c.inner.clone() }), app: cfg.app.clone(), principal: cfg.principal, events };
